@@ -1,15 +1,26 @@
 import Driver.Util
 import OptunaVerif.Model.Grid
+import OptunaVerif.Generated.GridMethods
 /-! Sub-driver `grid`: the grid sampler model behind the line protocol (C14).
 
 request  {"op":"run","n":n,"ks":[k..],"pre":[[gridId|null,"running"|"finished"|"waiting"]..],
           "choices":[g..],"raises":[trial..]}
-response {"trials":[[gridId|null,state]..],"stop":b,"ncalls":n}
+          optional "space":S  (the sampler's search space)
+response {"trials":[[gridId|null,state]..],"stop":b,"ncalls":n,"gen":null|{..}}
+          "gen": the same run with `before_trial` / `after_trial` taken from the interpreter of the methods GENERATED
+          from the source (`Generated/GridMethods.lean`) on the stored form of the study — `null` when it agrees
+          with the hand model, else the first difference.
 request  {"op":"unvisited","n":n,"trials":[[gridId|null,state]..]} -> {"ids":[g..]}
+request  {"op":"gen_unvisited","space":S,"n":n,"trials":[{"gid":g|null,"space":S|null,"fixed":b,"state":s}..]}
+          -> {"ids":[g..]} | {"error":"keyError"|..}     (generated `_get_unvisited_grid_ids` on real attributes)
+request  {"op":"gen_veq","a":V,"b":V} -> {"eq":b,"hand":b}        (generated `_grid_value_equal`)
+request  {"op":"gen_samespace","mine":S,"theirs":S} -> {"same":b,"hand":b}
+   S = [[name,[V..]]..]   V = null | true | false | int | {"f":"n/d"} | {"inf":neg} | {"nan":objectId} | "str"
 -/
 open Lean
 namespace Driver.Sub.Grid
-open OptunaVerif OptunaVerif.Grid Driver
+open OptunaVerif OptunaVerif.Grid OptunaVerif.SamplerIR Driver
+open OptunaVerif.Generated
 
 def parseTS (s : String) : P TS :=
   match s with
@@ -31,6 +42,46 @@ def parseTrial (j : Json) : P GTrial := do
 def trialJson (t : GTrial) : Json :=
   Json.arr #[optJson (fun (n : Nat) => (n : Json)) t.gridId, Json.str (tsName t.state)]
 
+def parseGVal (j : Json) : P GVal :=
+  match j with
+  | .null => pure .none
+  | .bool b => pure (.bool b)
+  | .str s => pure (.str s)
+  | .num _ => do return .int (← j.getInt?)
+  | _ =>
+    match optF j "f", optF j "inf", optF j "nan" with
+    | some f, _, _ => do return .float (← parseRat (← f.getStr?))
+    | _, some b, _ => do return .inf (← b.getBool?)
+    | _, _, some n => do return .nan (← n.getNat?)
+    | _, _, _ => throw "grid value expected"
+
+def parseSpace (j : Json) : P Space := do
+  mapM' (fun kv => do
+    match (← kv.getArr?).toList with
+    | [k, vs] => return (← k.getStr?, ← mapM' parseGVal (← vs.getArr?).toList)
+    | _ => throw "space entry expected") (← j.getArr?).toList
+
+def parseRTrial (j : Json) : P RTrial := do
+  let g := fieldD j "gid" Json.null
+  let gid ← if g.isNull then pure none else do pure (some (← g.getNat?))
+  let sp := fieldD j "space" Json.null
+  let space ← if sp.isNull then pure none else do pure (some (← parseSpace sp))
+  return ⟨gid, space, ← boolF j "fixed", ← parseTS (← strF j "state")⟩
+
+def errName : Err → String
+  | .valueError => "valueError" | .assertion => "assertion" | .keyError => "keyError"
+  | .typeError => "typeError" | .unrepresentable => "unrepresentable"
+
+def natsJson (l : List Nat) : Json := Json.arr (l.map (fun (n : Nat) => (n : Json))).toArray
+
+def genDiff (h g : St) : Json :=
+  if h.trials != g.trials then
+    Json.mkObj [("what", "trials"), ("hand", Json.arr (h.trials.map trialJson).toArray),
+      ("generated", Json.arr (g.trials.map trialJson).toArray)]
+  else if h.stop != g.stop then Json.mkObj [("what", "stop flag"), ("hand", h.stop), ("generated", g.stop)]
+  else if h.calls != g.calls then Json.mkObj [("what", "RNG calls"), ("hand", h.calls), ("generated", g.calls)]
+  else Json.null
+
 def run (j : Json) : P Json := do
   let n ← natF j "n"
   let ks ← mapM' (fun k => k.getNat?) (← arrF j "ks")
@@ -39,7 +90,13 @@ def run (j : Json) : P Json := do
   let raises ← mapM' (fun c => c.getNat?) (← arrF j "raises")
   let cx : Ctx := { ω := fun c => choices.getD c 0, raises := fun i => raises.contains i }
   let st := session cx n ks { trials := pre }
-  return Json.mkObj [("trials", Json.arr (st.trials.map trialJson).toArray),
+  let mine ← match optF j "space" with
+    | some sp => parseSpace sp
+    | none => pure [("p", [GVal.nan 0, GVal.int 1])]
+  -- the generated hooks may never set the stop flag: bound every budget by what the hand model needed
+  let cap := st.trials.length + 3
+  let stG := gsessionW (genGImpl GridMethods.gridProg mine) cx n (ks.map (fun k => min k cap)) { trials := pre }
+  return Json.mkObj [("gen", genDiff st stG), ("trials", Json.arr (st.trials.map trialJson).toArray),
     ("stop", st.stop), ("ncalls", st.calls)]
 
 def handle (j : Json) : Json :=
@@ -54,6 +111,32 @@ def handle (j : Json) : Json :=
       let ts ← mapM' parseTrial (← arrF j "trials")
       pure (unvisited n ts) : P (List Nat)) with
     | .ok l => Json.mkObj [("ids", Json.arr (l.map (fun (n : Nat) => (n : Json))).toArray)]
+    | .error e => Json.mkObj [("k", "bad-op"), ("why", e)]
+  | .ok (Json.str "gen_unvisited") =>
+    match (do
+      let mine ← parseSpace (← field j "space")
+      let n ← natF j "n"
+      let ts ← mapM' parseRTrial (← arrF j "trials")
+      pure (interpUnvisited GridMethods.gridProg mine n ts, unvisitedR mine n ts) : P (Except Err (List Nat) × Option (List Nat))) with
+    | .ok (.ok l, h) => Json.mkObj [("ids", natsJson l), ("hand", optJson natsJson h)]
+    | .ok (.error e, h) => Json.mkObj [("error", errName e), ("hand", optJson natsJson h)]
+    | .error e => Json.mkObj [("k", "bad-op"), ("why", e)]
+  | .ok (Json.str "gen_veq") =>
+    match (do
+      let a ← parseGVal (← field j "a")
+      let b ← parseGVal (← field j "b")
+      pure (interpValueEqual GridMethods.gridValueEqual a b, gridValueEqual a b) : P (Except Err Bool × Bool)) with
+    | .ok (.ok r, h) => Json.mkObj [("eq", r), ("hand", h)]
+    | .ok (.error e, h) => Json.mkObj [("error", errName e), ("hand", h)]
+    | .error e => Json.mkObj [("k", "bad-op"), ("why", e)]
+  | .ok (Json.str "gen_samespace") =>
+    match (do
+      let mine ← parseSpace (← field j "mine")
+      let theirs ← parseSpace (← field j "theirs")
+      pure (interpSameSpace GridMethods.gridValueEqual GridMethods.sameSearchSpace mine theirs,
+            sameSearchSpace mine theirs) : P (Except Err Bool × Bool)) with
+    | .ok (.ok r, h) => Json.mkObj [("same", r), ("hand", h)]
+    | .ok (.error e, h) => Json.mkObj [("error", errName e), ("hand", h)]
     | .error e => Json.mkObj [("k", "bad-op"), ("why", e)]
   | _ => Json.mkObj [("k", "bad-op"), ("why", "unknown op")]
 
